@@ -58,7 +58,7 @@ def parseL : Nat → Nat → List String → Option (List P × List String)
 end
 
 def parse (toks : List String) : Option P :=
-  match parseP (toks.length + 1) toks with
+  match parseP (2 * toks.length + 2) toks with
   | some (p, []) => some p
   | _ => none
 
